@@ -5,7 +5,9 @@ from __future__ import annotations
 import ast
 
 from ..cfg import CFG
+from ..interp import Hooks, explore
 from ..model import norm
+from ..values import Const, Dct, Ext, Func, Lst, Obj, tagof
 
 EXPLANATION = (
     "Typestate (acquire/release) analysis on the event CFG of the patch() generator, with exceptional edges from every "
@@ -17,7 +19,9 @@ EXPLANATION = (
 )
 RULE_TEXT = (
     "C20.a no path acquire ->(normal) ... -> exit/exceptional exit avoiding the release; C20.b the re-entry guard "
-    "dominates every acquire; C20.c standard targets present, first, mapped to fs.connect and fakes.write_pandas."
+    "dominates every acquire; C20.c standard targets present, first, mapped to fs.connect and fakes.write_pandas; C20.d "
+    "every dash option of the CLI parser takes one value (what split() assumes); C20.e a flag raised inside split()'s "
+    "scan is lowered inside it."
 )
 TRUSTED = ["CPython ast", "contextlib.ExitStack.close() undoes every entered patch", "unittest.mock.patch restores the original on exit"]
 
@@ -114,57 +118,109 @@ def rule_release(ctx):
                       "it does damage (the inner exit would restore mocks as 'originals')")
 
 
+class PatchHooks(Hooks):
+    """patch() interpreted straight through (entered and left normally), twice in one run.  The import system is modelled:
+    every module has the variables the targets name, bound to the connector's originals."""
+
+    run_generators = True
+
+    def __init__(self):
+        self.calls: list[list] = []  # per patch() call: [(target, side_effect)]
+        self.instances: list = []
+
+    def intercept(self, I, key, args, kwargs, site, f=None):
+        if key == "instance.FakeSnow.__init__":
+            o = f.self_val if f is not None else None
+            if not any(o is x for x in self.instances) and not getattr(o, "lazy_done", False):  # (not the interpreter's shadow object)
+                self.instances.append(o)
+            return Const(None)
+        return NotImplemented
+
+    def external(self, I, d, args, kwargs, site):
+        if d.endswith("mock.patch"):
+            self.calls[-1].append((args[0] if args else None, kwargs.get("side_effect")))
+            return Obj("patcher", kind="patcher")
+        if d in ("sys.modules.get", "importlib.import_module"):
+            m = Obj("module", kind="module")
+            dd = Dct()
+            dd.shared_name = "module.__dict__"
+            m.attrs["__dict__"] = dd
+            return m
+        return NotImplemented
+
+    def dict_get(self, I, dct, key, site):
+        if dct.shared_name == "module.__dict__":
+            k = key.v if isinstance(key, Const) else None
+            return Ext("snowflake.connector.pandas_tools.write_pandas" if k == "write_pandas" else "snowflake.connector.connect")
+        return NotImplemented
+
+    def isinstance_unknown(self, I, v, cls):
+        return False
+
+
+STD = ["snowflake.connector.connect", "snowflake.connector.pandas_tools.write_pandas"]
+
+
 def rule_targets(ctx):
+    """C20.c: each `with patch(extra_targets=E)` patches exactly the two standard targets and then E, in that order, each
+    with this call's own instance's connect / the fake write_pandas — also when an earlier patch() had other extras."""
     prog = ctx.prog
     m = prog.mod("__init__")
     fn = prog.fn("__init__", "patch")
-    STD = {"snowflake.connector.connect": "connect", "snowflake.connector.pandas_tools.write_pandas": "write_pandas"}
-    # the mapping original -> fake
-    dicts = [d for d in ast.walk(fn) if isinstance(d, ast.Dict)]
-    okmap = False
-    for d in dicts:
-        kv = {norm(k): v for k, v in zip(d.keys, d.values) if k is not None}
-        if set(STD) <= set(kv):
-            v1, v2 = kv["snowflake.connector.connect"], kv["snowflake.connector.pandas_tools.write_pandas"]
-            ok1 = isinstance(v1, ast.Attribute) and v1.attr == "connect" and isinstance(v1.value, ast.Name)
-            # v1's receiver must be the FakeSnow instance
-            inst = {t.id for s in ast.walk(fn) if isinstance(s, ast.Assign) and isinstance(s.value, ast.Call)
-                    and (prog.dotted(m, s.value.func) or "").endswith("instance.FakeSnow") for t in s.targets if isinstance(t, ast.Name)}
-            ok1 = ok1 and v1.value.id in inst
-            r = prog.resolve(prog.dotted(m, v2) or "")
-            ok2 = r == ("pandas_tools", "write_pandas")
-            okmap = ok1 and ok2
-    ctx.ob("C20.c", "standard targets map to the instance's connect and the fake write_pandas", okmap, m.loc(fn))
-    if not okmap:
-        ctx.violation("C20.c", "__init__", "patch", "fake_fns mapping", m.loc(fn),
-                      "snowflake.connector.connect / pandas_tools.write_pandas are not mapped to the instance's connect / the fake write_pandas")
-    # standard targets are in the patched list, before the extras
-    loops = [s for s in ast.walk(fn) if isinstance(s, ast.For)]
-    oklist = False
-    def assigned(name):
-        for s_ in ast.walk(fn):
-            if isinstance(s_, ast.Assign) and any(isinstance(t, ast.Name) and t.id == name for t in s_.targets):
-                return s_.value
-        return None
+    loc = m.loc(fn)
+    scenarios = [
+        ("a list of extras, then none", [Lst([Const("mymod.connect"), Const("other.write_pandas")]), None]),
+        ("one extra as a string, then a different one", [Const("mymod.connect"), Lst([Const("third.connect")])]),
+        ("no extras, twice", [None, None]),
+    ]
+    n = 0
+    for label, seq in scenarios:
+        hooks = []
 
-    for lp in loops:
-        it = lp.iter
-        if isinstance(it, ast.Name) and assigned(it.id) is not None:
-            it = assigned(it.id)
-        first = it.left if isinstance(it, ast.BinOp) and isinstance(it.op, ast.Add) else it
-        vals = None
-        if isinstance(first, ast.Name):
-            for s in ast.walk(fn):
-                if isinstance(s, ast.Assign) and any(isinstance(t, ast.Name) and t.id == first.id for t in s.targets) and isinstance(s.value, (ast.List, ast.Tuple)):
-                    vals = [e.value for e in s.value.elts if isinstance(e, ast.Constant)]
-        elif isinstance(first, (ast.List, ast.Tuple)):
-            vals = [e.value for e in first.elts if isinstance(e, ast.Constant)]
-        if vals is not None and set(STD) <= set(vals) and "extra_targets" in norm(it):
-            oklist = True
-    ctx.ob("C20.c", "both standard targets are patched, before the extra targets", oklist, m.loc(fn))
-    if not oklist:
-        ctx.violation("C20.c", "__init__", "patch", "standard target list", m.loc(fn),
-                      "the loop that applies patches does not start with both standard targets followed by the extra targets")
+        def fac():
+            h = PatchHooks()
+            hooks.append(h)
+            return h
+
+        def run(I, seq=seq):
+            f = I.global_lookup("__init__", "patch")
+            for extras in seq:
+                I.hooks.calls.append([])
+                I.call(f, [], {} if extras is None else {"extra_targets": extras}, None)
+
+        for p, h in zip(explore(prog, fac, run, max_paths=16), hooks):
+            if p.outcome != "return":
+                ctx.ob("C20.c", f"{label}: patch() enters and leaves", False, loc, repr(p.value))
+                ctx.violation("C20.c", "__init__", "patch", f"{label}: raises", loc, f"patch() raises {p.value.cls} for {label}")
+                continue
+            for i, (extras, got) in enumerate(zip(seq, h.calls)):
+                n += 1
+                ex = [] if extras is None else [extras.v] if isinstance(extras, Const) else [x.v for x in extras.items]
+                want = STD + ex
+                names = [t.v if isinstance(t, Const) else tagof(t) for t, _ in got]
+                ok = names == want
+                ctx.ob("C20.c", f"{label}: call {i + 1} patches exactly the standard targets, then its own extras", ok, loc, "" if ok else str(names))
+                if not ok:
+                    ctx.violation("C20.c", "__init__", "patch", f"patched targets, call {i + 1} of '{label}'", loc,
+                                  f"`with patch(extra_targets={ex})` (call {i + 1} of: {label}) patches {names}; it must patch {want}: "
+                                  f"targets are missing, out of order, or left over from an earlier patch()")
+                    continue
+                inst = h.instances[i] if i < len(h.instances) else None
+                bad = []
+                for t, fake in got:
+                    tv = t.v if isinstance(t, Const) else ""
+                    if tv.endswith("write_pandas"):
+                        okf = isinstance(fake, Func) and (fake.mod, fake.qual) == ("pandas_tools", "write_pandas")
+                    else:
+                        okf = isinstance(fake, Func) and fake.qual.endswith(".connect") and fake.self_val is inst and inst is not None
+                    if not okf:
+                        bad.append(f"{tv} -> {tagof(fake)}")
+                ctx.ob("C20.c", f"{label}: call {i + 1} maps connect to its own instance and write_pandas to the fake", not bad, loc, str(bad))
+                if bad:
+                    ctx.violation("C20.c", "__init__", "patch", f"fake for {bad[0].split(' -> ')[0]}", loc,
+                                  f"patch() installs {bad}: connect targets must call this patch()'s own FakeSnow instance and write_pandas the fake")
+            break
+    ctx.floor("C20.c patch() calls interpreted", n, 6)
 
 
 def rule_cli_agreement(ctx):
